@@ -108,6 +108,21 @@ def run_case(c, scratch):
     import emdfile
     p = os.path.join(scratch, 'leg_%d.emd' % os.getpid())
     if os.path.exists(p): os.remove(p)
+    if c.get('pre'):
+        # something else sat at this very path before and the package has looked at it in this process: what read returns
+        # for the file that is there NOW must not depend on that
+        import h5py
+        try:
+            with core.quiet():
+                if c['pre'] == 'emd1':
+                    emdfile.save(p, emdfile.Root(name='earlier'), mode='w'); emdfile.read(p)
+                else:
+                    with h5py.File(p, 'w') as f:
+                        f.create_group('g')
+                    emdfile.read(p)
+        except BaseException:
+            pass
+        if os.path.exists(p): os.remove(p)
     write_file(c, p)
     out = {'slot': T.abs_slot(p), 'sha': T.sha(p)}
     try:
